@@ -115,6 +115,13 @@ def linsub(lin, src, dest, replace):
     return tuple(result)
 
 
+def _add_count(result, func, lin, rule_cnt):
+    """Add rule_cnt occurrences of the given rule to the result grammar.
+    """
+    result[func][lin][grammarconst.DEFAULT_VERT] = \
+        result[func][lin].get(grammarconst.DEFAULT_VERT, 0) + rule_cnt
+
+
 def binarize_rule(func, lin, rule_cnt, vert, label_gen, result):
     """Left-to-right binarization of a single rule.
     """
@@ -124,7 +131,7 @@ def binarize_rule(func, lin, rule_cnt, vert, label_gen, result):
             result[func] = {}
         if not lin in result[func]:
             result[func][lin] = {}
-        result[func][lin][grammarconst.DEFAULT_VERT] = rule_cnt
+        _add_count(result, func, lin, rule_cnt)
     else:
         this_lin = lin
         sub_lin = linsub(lin, lambda x: x > 0, lambda x: 1, True)
@@ -134,7 +141,7 @@ def binarize_rule(func, lin, rule_cnt, vert, label_gen, result):
             result[bin_func] = {}
         if not sub_lin in result[bin_func]:
             result[bin_func][sub_lin] = {}
-        result[bin_func][sub_lin][grammarconst.DEFAULT_VERT] = rule_cnt
+        _add_count(result, bin_func, sub_lin, rule_cnt)
         for i in range(1, len(func) - 3):
             this_lin = linsub(this_lin, lambda x: x >= 0,
                               lambda x: x - 1, False)
@@ -149,7 +156,7 @@ def binarize_rule(func, lin, rule_cnt, vert, label_gen, result):
                 result[bin_func] = {}
             if not sub_lin in result[bin_func]:
                 result[bin_func][sub_lin] = {}
-            result[bin_func][sub_lin][grammarconst.DEFAULT_VERT] = rule_cnt
+            _add_count(result, bin_func, sub_lin, rule_cnt)
         bin_func = tuple([bin_label, func[-2], func[-1]])
         this_lin = linsub(this_lin, lambda x: x >= 0, lambda x: x - 1, False)
         this_lin = linsub(this_lin, lambda x: x == -1, lambda x: None, False)
@@ -157,7 +164,7 @@ def binarize_rule(func, lin, rule_cnt, vert, label_gen, result):
             result[bin_func] = {}
         if not this_lin in result[bin_func]:
             result[bin_func][this_lin] = {}
-        result[bin_func][this_lin][grammarconst.DEFAULT_VERT] = rule_cnt
+        _add_count(result, bin_func, this_lin, rule_cnt)
 
 
 def reordering_none(func, lin):
@@ -216,28 +223,16 @@ def binarize(grammar, **args):
     # with markovization?
     if 'markov_opts' in args and args['markov_opts'] is not None:
         nofanout = 'nofanout' in args['markov_opts']
-        nf_vert = []
-        if nofanout:
-            # collapse counts for vertical context in which labels have
-            # their fanouts stripped
-            for func in grammar:
-                for lin in grammar[func]:
-                    for vert in grammar[func][lin]:
-                        nf_vert.append(tuple([grammarconst.
-                                              label_strip_fanout(label)
-                                              for label in vert]))
-            nf_vert_c = Counter(nf_vert)
         label_gen = MarkovLabelGenerator(p=args['markov_opts'])
         for func in grammar:
             for lin in grammar[func]:
                 for vert in grammar[func][lin]:
                     rule_cnt = grammar[func][lin][vert]
                     if nofanout:
-                        # then use the corresponding counts/contexts
+                        # use the vertical context without fan-outs
                         vert = tuple([grammarconst.
                                       label_strip_fanout(label)
                                       for label in vert])
-                        rule_cnt = nf_vert_c[vert]
                     if 'reordering' in args:
                         _func, _lin = args['reordering'](func, lin)
                     else:
